@@ -5,7 +5,7 @@ cd "$(dirname "$0")/.."
 SCALE="${1:-0.02}"
 strip() { jq -S 'del(.wall_s) | del(.coverage.runs_per_hour) | del(.coverage.batches[].wall_s) | del(.coverage.batches[].runs_per_hour) | del(.coverage.miri)' "$1"; }
 fail=0
-for id in C02 C06 C07 C08 C12 C13 C15 C20 C21 C22 C25 C28 C31 C34; do
+for id in C02 C06 C07 C08 C11 C12 C13 C15 C20 C21 C25 C28 C29 C31 C34; do
   for seed in 1 77; do
     VERIF_ROOT=/tmp/det_a VERIF_SEED=$seed VERIF_SCALE=$SCALE VERIF_WORKERS=1 ./sim/target/release/vsim check $id quick >/dev/null 2>&1
     VERIF_ROOT=/tmp/det_b VERIF_SEED=$seed VERIF_SCALE=$SCALE VERIF_WORKERS=16 ./sim/target/release/vsim check $id quick >/dev/null 2>&1
